@@ -130,6 +130,45 @@ CHECKS = {
          "Component.id echoes (also: ids distinct, no placeholder left, child attrs consumed). Chains of depth 2000 (wrapped) / 300 (as root) in thorough.",
          "Well-formed lower-case non-void elements with quoted attributes; the Rust HTML pass is trusted; html.parser lower-cases attribute names.",
          "§4 C14"),
+ "C02": ("model_checking",
+         "TLC construction of argument lists (stack machine over TagArgs.tla: Denote, layout relation Text, Invalid) exported with 15 pairwise-covering layouts each, replayed on a @template_tag probe, {% component %}, the shorthand formatter and {% slot %} + TLC trace validation of deeper random lists",
+         "TagArgs.tla gives the abstract argument lists (pos / kw / aggregate / spread / flag; nested list and dict literals with * / ** spreads; vars, numbers, "
+         "strings, translations, nested-template strings, filter chains), their denotation Denote(args) and the layout relation Text(args, style) over 18 "
+         "whitespace / quote / trailing-comma / slash knobs; TLC checks PairwiseCovered, DocExamplesOK, GeneratorAgrees, SkeletonInvariant, SerialIsLayout. "
+         "Every list inside the bounds is exported with 15 layouts and the expected denotation and replayed on a probe tag and on {% component %} (leaves "
+         "valued by stock FilterExpression); invalid constructs must raise TemplateSyntaxError; deeper random lists are validated by Trace_C02.",
+         "Not generated: leading-colon keys, duplicate keywords, positional after keyword, filters on literals; whitespace between a spread operator and a "
+         "literal operand admits TemplateSyntaxError as well.",
+         "§4 C02"),
+ "C12": ("exploration",
+         "TLC enumeration of every string up to length 4 (quick) / 5 (thorough) over the 18-symbol syntax alphabet and of one-symbol mutants of valid tags (TagArgs.tla input space), each fed to parse_tag / Template() under a watchdog + round trip through the real serialiser + growth exponent from interpreter line events at n, 2n, 4n",
+         "The TLA+ specification generates the input space (every short string over the syntax-relevant alphabet, template strings, mutants of valid texts) "
+         "and the round-trip expectation Serial; termination and resource use of the Python scanner are observed, not modelled: every input must end in "
+         "success or TemplateSyntaxError (any other exception class, a timeout or memory blow-up is a violation), canonical serialisations re-parse to the "
+         "same arguments, and the fitted growth exponent of line-event counts must stay below 2.5.",
+         "Exploration level: exhaustive only for short strings; time spent inside C regex code is invisible to line-event counting.",
+         "§4 C12"),
+ "C13": ("model_checking",
+         "TLC enumeration over HtmlAttrs.tla (Merge / Expected + a model of the WHATWG attribute tokenizer), SlotEscape.tla (escape count machine) and EndTagGuard.tla (script-data tokenizer), every state replayed through real templates / Component.render / html.parser + TLC trace validation",
+         "HtmlAttrs.tla specifies defaults overridden by attrs with keywords appended, None/False omitted, True bare, and TLC evaluates that parsing the "
+         "specified emission yields exactly the expected names and values (RoundTripI, LawOverride, LawAppend, EscapeIsSafe); SlotEscape.tla bounds the "
+         "number of escapings of Python-passed slot content to the admitted set (never twice) along re-pass chains; EndTagGuard.tla decides which JS/CSS "
+         "strings terminate their element. Every TLC state is replayed ({% html_attrs %} in all documented forms, slot chains through real components, "
+         "js/css through Component.render); non-conforming results go back to TLC, which decides whether a named deviation explains them; random deeper "
+         "runs are validated by Trace_C13.",
+         "Appending to/with None/True/False admits any rendering of that name or TypeError; SafeString values verbatim or escaped; only lower-case names; "
+         "fragment-mode JS and script-data escaped states not modelled.",
+         "§4 C13"),
+ "C16": ("model_checking",
+         "TLC enumeration of class hierarchies over MediaInherit.tla (Files, linear-extension order, C3 MRO, pair rule, memo machine with Access actions) + implementation-shaped MediaInheritImpl refinement + replay on real classes built with type() + TLC trace validation",
+         "MediaInherit.tla specifies Files(c, t) (own plus the bases selected by Media.extend, each once, order a linear extension of every declared list when "
+         "acyclic), a transcription of C3 cross-checked against Python's __mro__, the js/css/template pair rule and a memo machine whose invariant "
+         "OrderIndependent says the result does not depend on which class is accessed first. All exported hierarchies are built for real in fresh "
+         "namespaces and every access order replayed; MediaInheritImpl transcribes the resolution code with three named deviations and classifies runs "
+         "the abstract spec rejects; 6-class random hierarchies are validated by Trace_C16.",
+         "Relative order of files no declared list relates, cyclic lists (compared as sets) and which classes end up memoised are unspecified; SafeString "
+         "entries and custom media_class not generated.",
+         "§4 C16"),
  "C17": ("model_checking",
          "TLC enumeration of (tree, configuration, lookup) over Finder.tla's Exposed predicate, replayed through finder.list / find / staticfiles serve + TLC trace validation of random sessions",
          "Finder.tla: Exposed(path, cfg) iff some allowed pattern matches and no forbidden one does (suffix = literal endswith; a catalogue of regexes with TLA+ "
@@ -159,7 +198,7 @@ CHECKS = {
          "bounded to 3-4 keys exhaustively, 8 keys in random traces; Django's Template class trusted.",
          "§4 C18"),
 }
-NOT_YET = "check not built yet in this session; planned per DESIGN.md §8"
+NOT_YET = "C10: check not built yet (stock-template differential and inlining law); planned per DESIGN.md §4 C10"
 
 def main():
     checks = []
